@@ -151,6 +151,19 @@ pub fn run(ctx: &Ctx, rep: &mut Report) {
                 probe_refuses = !probe_refuses;
                 set_probe_fail(&mut w.u, &probe_tok, probe_refuses);
             }
+            // the service or the gateway is upgraded to the same code and migrated
+            if rng.chance(1, 20) {
+                let a = if rng.chance(1, 2) { w.its.clone() } else { w.g.addr.clone() };
+                if w.u.upgrade_and_migrate(&a).is_ok() {
+                    rep.step("upgrade to the same code and migration".into());
+                    rep.count("upgrade-and-migrate");
+                    if let Some(dd) = w.check_registry() {
+                        rep.violation("registry-or-trust-changed-by-upgrade-and-migrate", dd);
+                        alive = false;
+                        break;
+                    }
+                }
+            }
             if rng.chance(1, 12) {
                 let d = rng.ledger_jump();
                 if w.u.advance(d) {
@@ -233,8 +246,8 @@ pub fn run(ctx: &Ctx, rep: &mut Report) {
                         _ => HUB_CHAIN.to_vec(),
                     };
                     let dest_trusted = w.model.trusted.contains(&dest);
-                    let dest_addr = rng.bytes_of(&[0, 1, 20, 33]);
-                    let data: Option<Vec<u8>> = if rng.chance(1, 3) { Some(rng.bytes_of(&[0, 1, 32, 100])) } else { None };
+                    let dest_addr = rng.bytes_of(&[0, 1, 20, 33, 20, 33, 1, 300, 1500, 17000]);
+                    let data: Option<Vec<u8>> = if rng.chance(1, 3) { Some(rng.bytes_of(&[0, 1, 32, 100, 32, 100, 1, 1100, 4100, 9000])) } else { None };
                     let unauth = scripted.is_none() && rng.chance(1, 15);
                     let auth = if unauth { Auth::Nobody } else { Auth::Only(vec![user.clone()]) };
                     let refused = t.probe && probe_refuses;
